@@ -360,8 +360,51 @@ func pnEmptyScenario(n, empty int) func() {
 	}
 }
 
+// pnMutateScenario: the per-node function changes the message it is given in place and returns it. The
+// generated documentation says it receives a copy of the request, so this is legal; every node must still
+// receive its own f(request, i), and the caller's request must be unchanged.
+func pnMutateScenario(kind string, n int) func() {
+	return func() {
+		w := world.New(world.Opts{N: n})
+		if w.Cfg == nil {
+			return
+		}
+		w.Handle = func(h *world.HCtx) world.Reply {
+			if h.Send != nil {
+				h.Send(0, 0)
+			}
+			return world.Reply{}
+		}
+		c := w.NewCall(kind)
+		c.MutateInPlace = true
+		c.Verdict = func(inv *world.QFInv) { inv.Level = len(inv.Keys); inv.Quorum = len(inv.Keys) >= n }
+		w.Start(c)
+		mc.Quiesce()
+		name, key := fmt.Sprintf("pernode/%s/n=%d/function-changes-its-argument-in-place", kind, n), classOf(kind)+"/in-place"
+		for id := 1; id <= n; id++ {
+			want := fmt.Sprintf("%s/n%d", c.Req0, id)
+			var got []string
+			for _, e := range w.EventsOf("enter", id) {
+				got = append(got, e.Payload)
+			}
+			if len(got) != 1 || got[0] != want {
+				fail("C06/payload", key, "%s: node %d received %q, expected exactly %q (the per-node function is documented to receive a copy of the request)", name, id, got, want)
+			}
+		}
+		if c.Req.Value != c.Req0 {
+			fail("C06/request-modified", key, "%s: the caller's request was changed to %q by the per-node function, which is documented to receive a copy", name, c.Req.Value)
+		}
+		mc.Outcome("ok")
+	}
+}
+
 func c06Instances(tier string) []Instance {
 	var out []Instance
+	for _, kind := range []string{"MulticastPerNodeArg", "QuorumCallPerNodeArg", "QuorumCallAsyncPerNodeArg", "CorrectablePerNodeArg"} {
+		for n := 2; n <= 3; n++ {
+			out = append(out, Instance{Name: fmt.Sprintf("pernode/%s/n=%d/function-changes-its-argument-in-place", kind, n), Bound: 1, Root: pnMutateScenario(kind, n)})
+		}
+	}
 	for n := 1; n <= 3; n++ {
 		for e := 1; e <= n; e++ {
 			out = append(out, Instance{Name: fmt.Sprintf("pernode/MulticastPerNodeArg/n=%d/all-default-message-for-node-%d", n, e), Bound: 1, Root: pnEmptyScenario(n, e)})
